@@ -13,7 +13,7 @@ Inductive obs_verdict :=
 Record run_obs := MkRun {
   r_observer : string;               (* current_peer_id of the run *)
   r_code : Z;                        (* ret_code *)
-  r_same : bool;                     (* returned data == prev bytes *)
+  r_same : bool;                     (* the run failed and the returned data == prev bytes *)
   r_sigs : list (string * sig)       (* signatures of the returned data (when it decodes) *)
 }.
 
